@@ -914,4 +914,749 @@ theorem mj_shape (tb : TieBreaking) (cfg : Cfg) (votes : SProfile) (n : Nat) (h1
             exact hbroken broken (tiebreakPlus_shape _ _ hk1 (by omega)
               (by rw [htkeys]; exact sortDedup_nodup T) _ hb)
 
+/-! ### Majority judgment: refusals -/
+
+theorem aggregate_error {fn : Agg} {t : ScoreTable} {e : Err} (h : aggregate fn t = .error e) :
+    ∃ p ∈ t, expand p.2 = [] ∧
+      ((fn = .mean ∧ e = .other "ZeroDivisionError") ∨ (fn = .medianLow ∧ e = .other "StatisticsError")) := by
+  unfold aggregate at h
+  obtain ⟨p, hp, hfp⟩ := mapM_error_mem h
+  cases ha : aggregateOne fn p.2 with
+  | ok v => rw [ha] at hfp; cases hfp
+  | error e' =>
+    rw [ha] at hfp
+    injection hfp with hfp
+    subst hfp
+    unfold aggregateOne at ha
+    obtain ⟨h1, h2⟩ := aggFn_error ha
+    exact ⟨p, hp, h1, h2⟩
+
+theorem correctedScores_error {cfg : Cfg} {votes : SProfile} {e : Err} (h : correctedScores cfg votes = .error e) :
+    e = .valueError ∧ cfg.unscored = .min ∧ ∃ p ∈ rawScores votes, expand p.2 = [] := by
+  unfold correctedScores at h
+  obtain ⟨p, hp, hfp⟩ := mapM_error_mem h
+  cases hc : correctOne cfg p.2 (totalVotes votes) with
+  | ok cs => rw [hc] at hfp; cases hfp
+  | error e'' =>
+    rw [hc] at hfp
+    injection hfp with hfp
+    subst hfp
+    obtain ⟨h1, h2, h3⟩ := correctOne_error hc
+    exact ⟨h1, h2, p, hp, h3⟩
+
+/-- the exceptions of the default tie-break: the declared `VotingSystemError` (nothing left to compare),
+    `StatisticsError` (a tied candidate ran out of grades: the open finding), or the model's fuel bound -/
+theorem tiebreakDefault_error : ∀ (fuel : Nat) (scores : ScoreTable) (n : Nat) (e : Err),
+    tiebreakDefault fuel scores n = .error e → 1 ≤ n → n ≤ scores.length → (scores.map (·.1)).Nodup →
+      e = .votingSystemError ∨ e = .other "StatisticsError" ∨ e = .other "Fuel" := by
+  intro fuel
+  induction fuel with
+  | zero =>
+    intro scores n e h
+    simp only [tiebreakDefault] at h
+    injection h with h
+    intro _ _ _
+    exact Or.inr (Or.inr h.symm)
+  | succ fuel ih =>
+    intro scores n e h h1 hlen hnd
+    unfold tiebreakDefault at h
+    cases scores with
+    | nil => simp at hlen; omega
+    | cons p0 ps =>
+      simp only at h
+      split at h
+      · injection h with h; exact Or.inl h.symm
+      · cases hm : aggregate .medianLow (p0 :: ps) with
+        | error e' =>
+          rw [hm] at h
+          injection h with h
+          subst h
+          obtain ⟨_, _, _, (⟨hc, _⟩ | ⟨_, he⟩)⟩ := aggregate_error hm
+          · cases hc
+          · exact Or.inr (Or.inl he)
+        | ok medians =>
+          rw [hm] at h
+          have hk := aggregate_keys hm
+          have hbest := getNBest_shape_of_keys medians _ hk hnd n h1 (by simpa using hlen)
+          simp only [bind, Except.bind] at h
+          split at h
+          · cases h
+          · rename_i i hi
+            obtain ⟨hj, htake, hwl⟩ := firstTie_take hi
+            rw [hbest.length] at hj
+            cases hrec : tiebreakDefault fuel
+                (List.filter (fun p => !(slotCands (List.take (i + 1) (getNBest medians n))).contains p.1) (p0 :: ps))
+                (n - (i + 1)) with
+            | ok rest => rw [hrec] at h; cases h
+            | error e' =>
+              rw [hrec] at h
+              injection h with h
+              subst h
+              set wc := slotCands (List.take (i + 1) (getNBest medians n)) with hwc
+              have hwc_nd : wc.Nodup := by
+                have hn := hbest.nodup
+                rw [← List.take_append_drop (i + 1) (getNBest medians n), electedOf_append, electedOf_eq_slotCands] at hn
+                exact (List.nodup_append.mp hn).1
+              have hkeys : (List.filter (fun p => !(wc.contains p.1)) (p0 :: ps)).map (·.1)
+                  = ((p0 :: ps).map (·.1)).filter (fun c => !(wc.contains c)) := by
+                rw [List.filter_map]; rfl
+              have hlen' := filter_keys_length (K := (p0 :: ps).map (·.1)) (w := wc) hnd
+              exact ih _ _ _ hrec (by omega) (by
+                have : (List.filter (fun p => !(wc.contains p.1)) (p0 :: ps)).length
+                    = ((List.filter (fun p => !(wc.contains p.1)) (p0 :: ps)).map (·.1)).length := by simp
+                rw [this, hkeys]
+                simp only [List.length_map] at hlen' hlen ⊢
+                omega) (by rw [hkeys]; exact hnd.filter _)
+          · exact ih _ _ _ h h1 (by simpa using hlen) (by
+              simpa [List.map_map, Function.comp_def] using hnd)
+
+theorem mem_of_tableGet {t : ScoreTable} {c : Cand} {cs : CScores} (h : tableGet t c = some cs) : (c, cs) ∈ t := by
+  unfold tableGet at h
+  cases hf : t.find? (fun p => decide (p.1 = c)) with
+  | none => rw [hf] at h; cases h
+  | some p =>
+    rw [hf] at h
+    injection h with h
+    have hm := List.mem_of_find?_eq_some hf
+    have hp := List.find?_some hf
+    simp only [decide_eq_true_eq] at hp
+    rw [← hp, ← h]
+    exact hm
+
+/-- where an exception of `MajorityJudgment.evaluate` comes from -/
+theorem mj_error_cases (tb : TieBreaking) (cfg : Cfg) (votes : SProfile) (n : Nat) (h1 : 1 ≤ n)
+    (hlen : n ≤ (scoreCands votes).length) (e : Err) (h : majorityJudgment tb cfg votes n = .error e) :
+    (e = .valueError ∧ cfg.unscored = .min ∧ ∃ p ∈ rawScores votes, expand p.2 = []) ∨
+    (e = .other "StatisticsError" ∧ ∃ t, correctedScores { cfg with fn := .medianLow } votes = .ok t ∧
+      ∃ p ∈ t, expand p.2 = []) ∨
+    (tb = .default ∧ (e = .votingSystemError ∨ e = .other "StatisticsError" ∨ e = .other "Fuel")) := by
+  unfold majorityJudgment at h
+  cases ht : correctedScores { cfg with fn := .medianLow } votes with
+  | error e' =>
+    rw [ht] at h
+    injection h with h
+    subst h
+    exact Or.inl (correctedScores_error ht)
+  | ok t =>
+    rw [ht] at h
+    simp only [bind, Except.bind] at h
+    cases ha : aggregate .medianLow t with
+    | error e' =>
+      rw [ha] at h
+      injection h with h
+      subst h
+      obtain ⟨p, hp, hpe, (⟨hc, _⟩ | ⟨_, he⟩)⟩ := aggregate_error ha
+      · cases hc
+      · exact Or.inr (Or.inl ⟨he, t, rfl, p, hp, hpe⟩)
+    | ok agg =>
+      rw [ha] at h
+      simp only at h
+      have htk : t.map (·.1) = scoreCands votes := correctedScores_keys ht
+      have hk : keys agg = scoreCands votes := by rw [aggregate_keys ha, htk]
+      have hnd : (keys agg).Nodup := hk ▸ scoreCands_nodup votes
+      have horder := getNBest_shape_of_keys agg _ hk (scoreCands_nodup votes) n h1 hlen
+      split at h
+      · rename_i hnone
+        exfalso
+        have : (getNBest agg n) = [] := List.getLast?_eq_none_iff.mp hnone
+        have hl := horder.length
+        rw [this] at hl
+        simp at hl
+        omega
+      · cases h
+      · rename_i T hlast
+        obtain ⟨τ, hτ, hlt, hT, htake⟩ := mj_tie_structure agg n h1 T hlast
+        have hmem : Slot.tie T ∈ getNBest agg n := List.mem_of_getLast? hlast
+        set k := (getNBest agg n).count (Slot.tie T) with hkdef
+        have hk1 : 1 ≤ k := List.count_pos_iff.mpr hmem
+        have hkT : k < T.length := horder.tie_big T hmem
+        have hgk := ge_keys_nodup agg hnd τ
+        rw [← hT] at hgk
+        have hTnd : T.Nodup := (List.nodup_append.mp hgk).2.1
+        have hTsub : ∀ c ∈ T, c ∈ t.map (·.1) := by
+          intro c hc
+          rw [htk]
+          exact horder.tie_ok T hmem c hc
+        set tied : ScoreTable := (sortDedup T).filterMap (fun c => (tableGet t c).map (fun cs => (c, cs))) with htied
+        have htkeys : tied.map (·.1) = sortDedup T := tied_keys hTsub
+        have htlen : tied.length = T.length := by
+          have : tied.length = (tied.map (·.1)).length := by simp
+          rw [this, htkeys, sortDedup_length_of_nodup hTnd]
+        cases tb with
+        | default =>
+          simp only at h
+          cases hb : tiebreakDefault (tableFuel tied) tied k with
+          | ok broken => rw [hb] at h; cases h
+          | error e' =>
+            rw [hb] at h
+            injection h with h
+            subst h
+            exact Or.inr (Or.inr ⟨rfl, tiebreakDefault_error _ _ _ _ hb hk1 (by omega)
+              (by rw [htkeys]; exact sortDedup_nodup T)⟩)
+        | plus =>
+          simp only at h
+          cases hb : tiebreakPlus tied k with
+          | ok broken => rw [hb] at h; cases h
+          | error e' =>
+            rw [hb] at h
+            injection h with h
+            subst h
+            unfold tiebreakPlus at hb
+            cases htd : tied with
+            | nil => rw [htd] at htlen; simp at htlen; omega
+            | cons p ps =>
+              rw [htd] at hb
+              simp only at hb
+              cases hm : aggregateOne .medianLow p.2 with
+              | ok m => rw [hm] at hb; cases hb
+              | error e'' =>
+                rw [hm] at hb
+                injection hb with hb
+                subst hb
+                unfold aggregateOne at hm
+                obtain ⟨hpe, (⟨hc, _⟩ | ⟨_, he⟩)⟩ := aggFn_error hm
+                · cases hc
+                · refine Or.inr (Or.inl ⟨he, t, rfl, (p.1, p.2), ?_, hpe⟩)
+                  have hpm : p ∈ tied := by rw [htd]; exact List.mem_cons_self
+                  obtain ⟨c, _, hc⟩ := List.mem_filterMap.mp hpm
+                  cases hg : tableGet t c with
+                  | none => rw [hg] at hc; cases hc
+                  | some cs =>
+                    rw [hg] at hc
+                    simp only [Option.map_some, Option.some.injEq] at hc
+                    rw [← hc]
+                    exact mem_of_tableGet hg
+
+/-- **Majority judgment refusals, unconditional part** (`1 ≤ n ≤ #candidates graded`, any settings, any profile): besides
+    the declared `VotingSystemError` of the default tie-break, `evaluate` can only raise
+      * `ValueError` with `unscored_value='min'` (a candidate without a grade of positive count),
+      * `StatisticsError`: an empty corrected grade list (as for ScoreVoting) or — default tie-break only, on ordinary
+        profiles — a tied candidate running out of grades (open finding; `mj_refusals_witness`),
+      * (model only) the fuel bound of the default tie-break loop.
+    Full statement (FALSE, see the witness): `… → e = .votingSystemError ∨ e = .notImplemented`. -/
+theorem mj_refusals_partial (tb : TieBreaking) (cfg : Cfg) (votes : SProfile) (n : Nat) (h1 : 1 ≤ n)
+    (hlen : n ≤ (scoreCands votes).length) (e : Err) (h : majorityJudgment tb cfg votes n = .error e) :
+    e = .votingSystemError ∨ (e = .valueError ∧ cfg.unscored = .min) ∨ e = .other "StatisticsError" ∨
+      (tb = .default ∧ e = .other "Fuel") := by
+  rcases mj_error_cases tb cfg votes n h1 hlen e h with ⟨h1, h2, _⟩ | ⟨h1, _⟩ | ⟨h1, (h2 | h2 | h2)⟩
+  · exact Or.inr (Or.inl ⟨h1, h2⟩)
+  · exact Or.inr (Or.inr (Or.inl h1))
+  · exact Or.inl h2
+  · exact Or.inr (Or.inr (Or.inl h2))
+  · exact Or.inr (Or.inr (Or.inr ⟨h1, h2⟩))
+
+/-- the open finding (C12 `mj_default_tiebreak_witness`): an ordinary profile on which the default tie-break raises
+    `StatisticsError` -/
+theorem mj_refusals_witness :
+    PosCounts [([(1, 1), (2, 2), (3, 1)], 2), ([(3, 2)], 1)] ∧
+    2 ≤ (scoreCands [([(1, 1), (2, 2), (3, 1)], 2), ([(3, 2)], 1)]).length ∧
+    majorityJudgment .default (C12.plainCfg .medianLow) [([(1, 1), (2, 2), (3, 1)], 2), ([(3, 2)], 1)] 2
+      = .error (.other "StatisticsError") :=
+  ⟨by decide +kernel, by decide +kernel, C12.mj_default_tiebreak_witness⟩
+
+/-- on a real profile without truncation every candidate keeps at least one grade after correction -/
+theorem correctedScores_total (cfg : Cfg) (hT : cfg.trunc = .off) (votes : SProfile) (hpos : PosCounts votes) :
+    ∃ t, correctedScores cfg votes = .ok t ∧ ∀ p ∈ t, expand p.2 ≠ [] := by
+  by_cases hne : votes = []
+  · subst hne; exact ⟨[], rfl, by simp⟩
+  have hV := totalVotes_pos hpos hne
+  have hgood := goodT_rawScores hpos
+  unfold correctedScores
+  simp only
+  generalize rawScores votes = raw at hgood
+  induction raw with
+  | nil => exact ⟨[], rfl, by simp⟩
+  | cons q rest ih =>
+    obtain ⟨t', ht', hne'⟩ := ih (fun p hp => hgood p (List.mem_cons_of_mem _ hp))
+    obtain ⟨cs', hcs', hne''⟩ := correctOne_ok_of_good hT (hgood q List.mem_cons_self) hV
+    refine ⟨(q.1, cs') :: t', ?_, ?_⟩
+    · rw [List.mapM_cons, hcs', ht']; rfl
+    · intro p hp
+      rcases List.mem_cons.mp hp with rfl | hp
+      · exact hne''
+      · exact hne' p hp
+
+theorem rawScores_expand_ne_nil {votes : SProfile} (hpos : PosCounts votes) : ∀ p ∈ rawScores votes, expand p.2 ≠ [] := by
+  intro p hp
+  obtain ⟨_, h2, h3⟩ := goodT_rawScores hpos p hp
+  cases hcs : p.2 with
+  | nil => exact absurd hcs h3
+  | cons q rest =>
+    rw [hcs] at h2
+    exact expand_ne_nil_of_pos List.mem_cons_self (h2 q List.mem_cons_self)
+
+/-- **Majority judgment with `tie_breaking='plus'` never raises on a real profile** (positive counts, no truncation,
+    `1 ≤ n ≤ #candidates graded`) -/
+theorem mjPlus_total (cfg : Cfg) (hT : cfg.trunc = .off) (votes : SProfile) (hpos : PosCounts votes) (n : Nat)
+    (h1 : 1 ≤ n) (hlen : n ≤ (scoreCands votes).length) : ∃ r, majorityJudgment .plus cfg votes n = .ok r := by
+  cases h : majorityJudgment .plus cfg votes n with
+  | ok r => exact ⟨r, rfl⟩
+  | error e =>
+    exfalso
+    obtain ⟨t, ht, hne⟩ := correctedScores_total { cfg with fn := .medianLow } hT votes hpos
+    rcases mj_error_cases .plus cfg votes n h1 hlen e h with ⟨_, _, p, hp, hpe⟩ | ⟨_, t', ht', p, hp, hpe⟩ | ⟨hc, _⟩
+    · exact rawScores_expand_ne_nil hpos p hp hpe
+    · rw [ht] at ht'
+      injection ht' with ht'
+      subst ht'
+      exact hne p hp hpe
+    · cases hc
+
+/-- **Majority judgment refusals on real profiles** (positive counts, no truncation, `1 ≤ n ≤ #candidates graded`),
+    `tie_breaking='plus'`: only declared refusals (in fact none: `mjPlus_total`). -/
+theorem mjPlus_refusals (cfg : Cfg) (hT : cfg.trunc = .off) (votes : SProfile) (hpos : PosCounts votes) (n : Nat)
+    (h1 : 1 ≤ n) (hlen : n ≤ (scoreCands votes).length) (e : Err) (h : majorityJudgment .plus cfg votes n = .error e) :
+    e = .votingSystemError ∨ e = .notImplemented := by
+  obtain ⟨r, hr⟩ := mjPlus_total cfg hT votes hpos n h1 hlen
+  rw [hr] at h; cases h
+
+/-- … default tie-break: the declared `VotingSystemError`, or the open finding `StatisticsError`
+    (`mj_refusals_witness`), or the model's fuel bound.
+    Full statement (FALSE): `… → e = .votingSystemError ∨ e = .notImplemented`. -/
+theorem mjDefault_refusals_partial (cfg : Cfg) (hT : cfg.trunc = .off) (votes : SProfile) (hpos : PosCounts votes)
+    (n : Nat) (h1 : 1 ≤ n) (hlen : n ≤ (scoreCands votes).length) (e : Err)
+    (h : majorityJudgment .default cfg votes n = .error e) :
+    e = .votingSystemError ∨ e = .other "StatisticsError" ∨ e = .other "Fuel" := by
+  obtain ⟨t, ht, hne⟩ := correctedScores_total { cfg with fn := .medianLow } hT votes hpos
+  rcases mj_error_cases .default cfg votes n h1 hlen e h with ⟨_, _, p, hp, hpe⟩ | ⟨_, t', ht', p, hp, hpe⟩ | ⟨_, hc⟩
+  · exact absurd hpe (rawScores_expand_ne_nil hpos p hp)
+  · rw [ht] at ht'
+    injection ht' with ht'
+    subst ht'
+    exact absurd hpe (hne p hp)
+  · exact hc
+
+/-- non-vacuity: a tie for the second seat broken by the 'plus' rule and by the default rule -/
+example : PosCounts [([(1, 1), (2, 2), (3, 1)], 6), ([(3, 2)], 3)] ∧
+    2 ≤ (scoreCands [([(1, 1), (2, 2), (3, 1)], 6), ([(3, 2)], 3)]).length ∧
+    majorityJudgment .default (C12.plainCfg .medianLow) [([(1, 1), (2, 2), (3, 1)], 6), ([(3, 2)], 3)] 2
+      = .ok [Slot.cand 2, Slot.cand 3] ∧
+    majorityJudgment .plus (C12.plainCfg .medianLow) [([(1, 1), (2, 2), (3, 1)], 6), ([(3, 2)], 3)] 2
+      = .ok [Slot.cand 2, Slot.cand 3] := by
+  refine ⟨by decide +kernel, by decide +kernel, by decide +kernel, by decide +kernel⟩
+
+/-! ### STAR -/
+
+theorem length_le_of_nodup_subset {l M : List Cand} (hl : l.Nodup) (h : ∀ x ∈ l, x ∈ M) : l.length ≤ M.length :=
+  (hl.subperm h).length_le
+
+/-- the run-off has at least as many members as places were asked from `get_n_best` (boundary ties enter whole) -/
+theorem starMembers_length_ge (agg : Votes) (hnd : (keys agg).Nodup) (m n : Nat) (h1 : 1 ≤ n) (hnm : n ≤ m)
+    (hlen : n ≤ agg.length) : n ≤ (starMembers (getNBest agg m)).length := by
+  have hM := (starMembers_spec (getNBest agg m)).1
+  have hcand : ∀ x, Slot.cand x ∈ getNBest agg m → x ∈ starMembers (getNBest agg m) :=
+    fun x hx => (hM x).mpr ⟨_, hx, by simp [slotNames]⟩
+  rcases Nat.lt_or_ge m agg.length with hlt | hge
+  · have hm1 : 1 ≤ m := by omega
+    obtain ⟨τ, hτ⟩ := nth_exists agg m hm1 (le_of_lt hlt)
+    have hl := ge_keys_nodup agg hnd τ
+    have hrlen := C09.getNBest_length agg m hm1 (le_of_lt hlt)
+    rcases Nat.lt_or_ge m (cntGe agg τ) with hno | hfit
+    · have hres := C09.getNBest_tie agg m hm1 hlt τ hτ hno
+      have hpos : 1 ≤ m - cntGt agg τ := by have := hτ.2.1; omega
+      have htie : Slot.tie (level agg τ) ∈ getNBest agg m := by
+        rw [hres]
+        apply List.mem_append_right
+        exact List.mem_replicate.mpr ⟨by omega, rfl⟩
+      have hbig := (getNBest_shape agg hnd m hm1 (le_of_lt hlt)).tie_big _ htie
+      have hcount : (getNBest agg m).count (Slot.tie (level agg τ)) = m - cntGt agg τ := by
+        rw [hres, List.count_append, List.count_replicate_self]
+        have hz : List.count (Slot.tie (level agg τ)) ((aboveSorted agg τ).map (fun p => Slot.cand p.1)) = 0 := by
+          rw [List.count_eq_zero]
+          intro hmem
+          obtain ⟨p, _, he⟩ := List.mem_map.mp hmem; cases he
+        rw [hz, Nat.zero_add]
+      have hal : (aboveSorted agg τ).length + (m - cntGt agg τ) = m := by
+        have := hrlen
+        rw [hres, List.length_append, List.length_map, List.length_replicate] at this
+        exact this
+      have hsub : ∀ x ∈ (aboveSorted agg τ).map (·.1) ++ level agg τ, x ∈ starMembers (getNBest agg m) := by
+        intro x hx
+        rcases List.mem_append.mp hx with hx | hx
+        · obtain ⟨p, hp, rfl⟩ := List.mem_map.mp hx
+          apply hcand
+          rw [hres]
+          exact List.mem_append_left _ (List.mem_map.mpr ⟨p, hp, rfl⟩)
+        · exact (hM x).mpr ⟨_, htie, by simpa [slotNames] using hx⟩
+      have := length_le_of_nodup_subset hl hsub
+      rw [List.length_append, List.length_map] at this
+      omega
+    · have hres := C09.getNBest_fits agg m hm1 hlt τ hτ hfit
+      have hsub : ∀ x ∈ (aboveSorted agg τ).map (·.1) ++ level agg τ, x ∈ starMembers (getNBest agg m) := by
+        intro x hx
+        apply hcand
+        rw [hres]
+        rcases List.mem_append.mp hx with hx | hx
+        · obtain ⟨p, hp, rfl⟩ := List.mem_map.mp hx
+          exact List.mem_append_left _ (List.mem_map.mpr ⟨p, hp, rfl⟩)
+        · exact List.mem_append_right _ (List.mem_map.mpr ⟨x, hx, rfl⟩)
+      have := length_le_of_nodup_subset hl hsub
+      have hl2 := hrlen
+      rw [hres, List.length_append, List.length_map, List.length_map] at hl2
+      rw [List.length_append, List.length_map] at this
+      omega
+  · have hres := getNBest_all agg m hge
+    have hs : ((sortDesc agg).map (·.1)).Nodup := ((sortDesc_perm agg).map _).nodup_iff.mpr hnd
+    have hsub : ∀ x ∈ (sortDesc agg).map (·.1), x ∈ starMembers (getNBest agg m) := by
+      intro x hx
+      obtain ⟨p, hp, rfl⟩ := List.mem_map.mp hx
+      apply hcand
+      rw [hres]
+      exact List.mem_map.mpr ⟨p, hp, rfl⟩
+    have := length_le_of_nodup_subset hs hsub
+    rw [List.length_map, sortDesc_length] at this
+    omega
+
+theorem starMembers_sub (agg : Votes) (m : Nat) : ∀ x ∈ starMembers (getNBest agg m), x ∈ keys agg := by
+  intro x hx
+  obtain ⟨s, hs, hxs⟩ := ((starMembers_spec (getNBest agg m)).1 x).mp hx
+  have := getNBest_slotIn agg m s hs
+  cases s with
+  | cand c => simp only [slotNames, List.mem_singleton] at hxs; subst hxs; exact this
+  | tie T => exact this x hxs
+
+/-! #### the Schulze score table names exactly the candidates of the pairwise table -/
+
+theorem foldl_inv {α β : Type} (P : β → Prop) (f : β → α → β) : ∀ (l : List α) (b : β), P b →
+    (∀ b x, x ∈ l → P b → P (f b x)) → P (l.foldl f b) := by
+  intro l
+  induction l with
+  | nil => intro b hb _; exact hb
+  | cons x xs ih =>
+    intro b hb hstep
+    simp only [List.foldl_cons]
+    exact ih _ (hstep b x List.mem_cons_self hb) (fun b y hy hP => hstep b y (List.mem_cons_of_mem _ hy) hP)
+
+/-- every pair of the table is among the candidates `A` -/
+def PairsIn (A : List Cand) (d : PairCounts) : Prop := ∀ q ∈ d, q.1.1 ∈ A ∧ q.1.2 ∈ A
+
+theorem mem_setPair {d : PairCounts} {a b : Cand} {n : Int} {q : (Cand × Cand) × Int} (h : q ∈ setPair d a b n) :
+    q.1 = (a, b) ∨ q ∈ d := by
+  induction d with
+  | nil => simp only [setPair, List.mem_singleton] at h; left; rw [h]
+  | cons x rest ih =>
+    obtain ⟨k, v⟩ := x
+    unfold setPair at h
+    by_cases hk : k = (a, b)
+    · rw [if_pos hk] at h
+      rcases List.mem_cons.mp h with h | h
+      · left; rw [h]; exact hk
+      · right; exact List.mem_cons_of_mem _ h
+    · rw [if_neg hk] at h
+      rcases List.mem_cons.mp h with h | h
+      · right; rw [h]; exact List.mem_cons_self
+      · rcases ih h with h | h
+        · exact Or.inl h
+        · exact Or.inr (List.mem_cons_of_mem _ h)
+
+theorem pairsIn_setPair {A : List Cand} {d : PairCounts} (h : PairsIn A d) {a b : Cand} (ha : a ∈ A) (hb : b ∈ A)
+    (n : Int) : PairsIn A (setPair d a b n) := by
+  intro q hq
+  rcases mem_setPair hq with hq | hq
+  · rw [hq]; exact ⟨ha, hb⟩
+  · exact h q hq
+
+/-- the candidates occurring in a pairwise table -/
+def pairCands (counts : PairCounts) : List Cand := counts.flatMap (fun p => [p.1.1, p.1.2])
+
+theorem mem_pairCands {counts : PairCounts} {c : Cand} :
+    c ∈ pairCands counts ↔ ∃ p ∈ counts, c = p.1.1 ∨ c = p.1.2 := by
+  unfold pairCands
+  simp [List.mem_flatMap]
+
+theorem widestPaths_pairsIn (counts : PairCounts) : PairsIn (pairCands counts) (widestPaths counts).1 := by
+  unfold widestPaths
+  simp only
+  have hA : ∀ c, c ∈ sortDedup (pairCands counts) → c ∈ pairCands counts := fun c hc => mem_sortDedup.mp hc
+  have h0 : PairsIn (pairCands counts) (counts.foldl (fun d p =>
+      if getPair counts p.1.2 p.1.1 < p.2 then setPair d p.1.1 p.1.2 p.2 else d) []) := by
+    apply foldl_inv (PairsIn (pairCands counts))
+    · intro q hq; cases hq
+    · intro d p hp hd
+      split
+      · exact pairsIn_setPair hd (mem_pairCands.mpr ⟨p, hp, Or.inl rfl⟩) (mem_pairCands.mpr ⟨p, hp, Or.inr rfl⟩) _
+      · exact hd
+  apply foldl_inv (PairsIn (pairCands counts)) _ _ _ h0
+  intro d c1 _ hd
+  apply foldl_inv (PairsIn (pairCands counts)) _ _ _ hd
+  intro d c2 hc2 hd
+  split
+  · apply foldl_inv (PairsIn (pairCands counts)) _ _ _ hd
+    intro d ca hca hd
+    split
+    · exact pairsIn_setPair hd (hA _ hc2) (hA _ hca) _
+    · exact hd
+  · exact hd
+
+theorem foldl_keys_mono {α : Type} (f : Votes → α → Votes) (hf : ∀ d x c, c ∈ keys d → c ∈ keys (f d x)) :
+    ∀ (l : List α) (d : Votes) (c : Cand), c ∈ keys d → c ∈ keys (l.foldl f d) := by
+  intro l
+  induction l with
+  | nil => intro d c h; exact h
+  | cons x xs ih => intro d c h; simp only [List.foldl_cons]; exact ih _ c (hf d x c h)
+
+theorem foldl_keys_hit {α : Type} (f : Votes → α → Votes) (hf : ∀ d x c, c ∈ keys d → c ∈ keys (f d x))
+    (g : α → Cand) (hg : ∀ d x, g x ∈ keys (f d x)) :
+    ∀ (l : List α) (d : Votes) (x : α), x ∈ l → g x ∈ keys (l.foldl f d) := by
+  intro l
+  induction l with
+  | nil => intro d x h; cases h
+  | cons y ys ih =>
+    intro d x h
+    simp only [List.foldl_cons]
+    rcases List.mem_cons.mp h with rfl | h
+    · exact foldl_keys_mono f hf ys _ _ (hg d x)
+    · exact ih _ x h
+
+/-- keys of a score table under construction: distinct, and among `A` -/
+def KInv (A : List Cand) (d : Votes) : Prop := (keys d).Nodup ∧ ∀ c ∈ keys d, c ∈ A
+
+theorem kInv_addVote {A : List Cand} {d : Votes} (h : KInv A d) {c : Cand} (hc : c ∈ A) (x : Rat) :
+    KInv A (addVote d c x) := by
+  refine ⟨nodup_keys_addVote h.1 c x, ?_⟩
+  intro c' hc'
+  rcases mem_keys_addVote.mp hc' with h' | rfl
+  · exact h.2 c' h'
+  · exact hc
+
+theorem schulzeScores_eq (counts : PairCounts) :
+    schulzeScores counts =
+      (widestPaths counts).1.foldl (fun d p =>
+        if getPair (widestPaths counts).1 p.1.2 p.1.1 < p.2 then addVote (addVote d p.1.1 1) p.1.2 0 else d)
+        (counts.foldl (fun d p => addVote (addVote d p.1.1 0) p.1.2 0) []) := rfl
+
+/-- **the Schulze score table has one entry per candidate of the pairwise table** -/
+theorem schulzeScores_keys (counts : PairCounts) :
+    (keys (schulzeScores counts)).Nodup ∧ ∀ c, c ∈ keys (schulzeScores counts) ↔ c ∈ pairCands counts := by
+  rw [schulzeScores_eq]
+  have hpaths := widestPaths_pairsIn counts
+  set paths := (widestPaths counts).1 with hp
+  have h0 : KInv (pairCands counts) (counts.foldl (fun d p => addVote (addVote d p.1.1 0) p.1.2 0) []) := by
+    apply foldl_inv (KInv (pairCands counts))
+    · exact ⟨by simp [keys], by intro c hc; simp [keys] at hc⟩
+    · intro d p hp hd
+      exact kInv_addVote (kInv_addVote hd (mem_pairCands.mpr ⟨p, hp, Or.inl rfl⟩) _)
+        (mem_pairCands.mpr ⟨p, hp, Or.inr rfl⟩) _
+  have h1 : KInv (pairCands counts) (paths.foldl (fun d p =>
+        if getPair paths p.1.2 p.1.1 < p.2 then addVote (addVote d p.1.1 1) p.1.2 0 else d)
+        (counts.foldl (fun d p => addVote (addVote d p.1.1 0) p.1.2 0) [])) := by
+    apply foldl_inv (KInv (pairCands counts)) _ _ _ h0
+    intro d p hp hd
+    split
+    · exact kInv_addVote (kInv_addVote hd (hpaths p hp).1 _) (hpaths p hp).2 _
+    · exact hd
+  refine ⟨h1.1, fun c => ⟨h1.2 c, ?_⟩⟩
+  intro hc
+  obtain ⟨p, hp, hcp⟩ := mem_pairCands.mp hc
+  apply foldl_keys_mono
+  · intro d x c' hc'
+    split
+    · exact mem_keys_addVote.mpr (Or.inl (mem_keys_addVote.mpr (Or.inl hc')))
+    · exact hc'
+  · have hmono : ∀ (d : Votes) (x : (Cand × Cand) × Int) (c' : Cand), c' ∈ keys d →
+        c' ∈ keys (addVote (addVote d x.1.1 0) x.1.2 0) :=
+      fun d x c' hc' => mem_keys_addVote.mpr (Or.inl (mem_keys_addVote.mpr (Or.inl hc')))
+    rcases hcp with rfl | rfl
+    · exact foldl_keys_hit (fun d (p : (Cand × Cand) × Int) => addVote (addVote d p.1.1 0) p.1.2 0) hmono
+        (fun p => p.1.1) (fun d x => mem_keys_addVote.mpr (Or.inl (mem_keys_addVote.mpr (Or.inr rfl)))) counts [] p hp
+    · exact foldl_keys_hit (fun d (p : (Cand × Cand) × Int) => addVote (addVote d p.1.1 0) p.1.2 0) hmono
+        (fun p => p.1.2) (fun d x => mem_keys_addVote.mpr (Or.inr rfl)) counts [] p hp
+
+/-- the member matrix of at least two members names exactly the members -/
+theorem pairCands_memberPairs (all : PairCounts) {ms : List Cand} (hnd : ms.Nodup) (h2 : 2 ≤ ms.length) :
+    ∀ c, c ∈ pairCands (memberPairs all ms) ↔ c ∈ ms := by
+  intro c
+  rw [mem_pairCands]
+  constructor
+  · rintro ⟨p, hp, (rfl | rfl)⟩
+    · exact (mem_memberPairs.mp hp).1
+    · exact (mem_memberPairs.mp hp).2.1
+  · intro hc
+    -- another member
+    obtain ⟨d, hd, hdc⟩ : ∃ d ∈ ms, d ≠ c := by
+      by_contra hno
+      have hall : ∀ d ∈ ms, d = c := by
+        intro d hd
+        by_contra hne
+        exact hno ⟨d, hd, hne⟩
+      have : ms.length ≤ [c].length := length_le_of_nodup_subset hnd (fun x hx => by rw [hall x hx]; simp)
+      simp at this
+      omega
+    exact ⟨((c, d), getPair all c d), mem_memberPairs.mpr ⟨hc, hd, fun e => hdc e.symm, rfl⟩, Or.inl rfl⟩
+
+theorem starSize_ge (ac : Nat) (af : Rat) (haf : 0 ≤ af) (n : Nat) : n ≤ starSize ac af n := by
+  unfold starSize Py.pyCeil
+  have hx : (0 : Rat) ≤ af * ((n : Nat) : Rat) := mul_nonneg haf (by positivity)
+  have : (-1 : Int) < (af * ((n : Nat) : Rat)).ceil := Rat.lt_ceil_iff.mpr (by push_cast; linarith)
+  omega
+
+/-- **STAR has the selection shape** (any settings with a non-negative added run-off fraction, any profile): whenever
+    `evaluate(votes, n)` returns, with `1 ≤ n ≤ #candidates graded`, the result has exactly `n` places filled with
+    distinct graded candidates or ties of them. -/
+theorem star_shape (ac : Nat) (af : Rat) (haf : 0 ≤ af) (cfg : Cfg) (votes : SProfile) (n : Nat) (h1 : 1 ≤ n)
+    (hlen : n ≤ (scoreCands votes).length) (r : List Slot) (h : Score.star ac af cfg votes n = .ok r) :
+    SelShape (scoreCands votes) n r := by
+  rw [C12.star_eq_schulze_of_runoff] at h
+  cases hc : convert { cfg with fn := .sum } votes with
+  | error e => rw [hc] at h; cases h
+  | ok agg =>
+    rw [hc] at h
+    simp only [Except.map] at h
+    injection h with h
+    have hk : keys agg = scoreCands votes := convert_keys hc
+    have hnd : (keys agg).Nodup := hk ▸ scoreCands_nodup votes
+    have hlen' : n ≤ agg.length := by
+      have : agg.length = (keys agg).length := by simp [keys]
+      rw [this, hk]; exact hlen
+    set members := starMembers (getNBest agg (starSize ac af n)) with hmem
+    have hmnd : members.Nodup := (starMembers_spec _).2
+    have hmsub : ∀ x ∈ members, x ∈ scoreCands votes := fun x hx => hk ▸ starMembers_sub agg _ x hx
+    have hmlen : n ≤ members.length := starMembers_length_ge agg hnd _ n h1 (starSize_ge ac af haf n) hlen'
+    split at h
+    · rename_i hle
+      subst h
+      have hn : n = members.length := by omega
+      rw [hn, List.take_length]
+      have := SelShape.prepend (cands := scoreCands votes) (cands' := []) (m := 0) (B := []) (w := members)
+        ⟨rfl, by simp, by simp, by simp [electedOf], by simp, by simp⟩ (by simp) hmsub hmnd (by simp)
+      simpa using this
+    · rename_i hgt
+      subst h
+      unfold schulze
+      obtain ⟨hknd, hkmem⟩ := schulzeScores_keys (memberPairs (pairCounts (starUnscored cfg) votes) members)
+      have hpc := pairCands_memberPairs (pairCounts (starUnscored cfg) votes) hmnd (by omega)
+      have hkm : ∀ c, c ∈ keys (schulzeScores (memberPairs (pairCounts (starUnscored cfg) votes) members)) ↔ c ∈ members :=
+        fun c => (hkmem c).trans (hpc c)
+      have hklen : members.length ≤
+          (keys (schulzeScores (memberPairs (pairCounts (starUnscored cfg) votes) members))).length :=
+        length_le_of_nodup_subset hmnd (fun x hx => (hkm x).mpr hx)
+      have := getNBest_shape_of_keys (schulzeScores (memberPairs (pairCounts (starUnscored cfg) votes) members)) _ rfl
+        hknd n h1 (by omega)
+      exact this.mono (fun c hc => hmsub c ((hkm c).mp hc))
+
+/-- **STAR refusals, unconditional part**: the only exception `evaluate` can raise is `ValueError` (`min()` of nothing)
+    with `unscored_value='min'` on a candidate without a grade of positive count — never on a real profile
+    (`star_total`).  -/
+theorem star_refusals_partial (ac : Nat) (af : Rat) (cfg : Cfg) (votes : SProfile) (n : Nat) (e : Err)
+    (h : Score.star ac af cfg votes n = .error e) :
+    e = .valueError ∧ cfg.unscored = .min ∧ ∃ p ∈ rawScores votes, expand p.2 = [] := by
+  rw [C12.star_eq_schulze_of_runoff] at h
+  cases hc : convert { cfg with fn := .sum } votes with
+  | ok agg => rw [hc] at h; cases h
+  | error e' =>
+    rw [hc] at h
+    simp only [Except.map] at h
+    injection h with h
+    subst h
+    rcases convert_error hc with h | ⟨_, _, _, _, _, (⟨hfn, _⟩ | ⟨hfn, _⟩)⟩
+    · exact h
+    · cases hfn
+    · cases hfn
+
+/-- **STAR never raises** unless `unscored_value='min'` meets non-positive ballot counts -/
+theorem star_total (ac : Nat) (af : Rat) (cfg : Cfg) (votes : SProfile)
+    (hok : cfg.unscored ≠ .min ∨ PosCounts votes) (n : Nat) : ∃ r, Score.star ac af cfg votes n = .ok r := by
+  cases h : Score.star ac af cfg votes n with
+  | ok r => exact ⟨r, rfl⟩
+  | error e =>
+    exfalso
+    obtain ⟨_, hmin, p, hp, hpe⟩ := star_refusals_partial ac af cfg votes n e h
+    rcases hok with hne | hpos
+    · exact hne hmin
+    · exact rawScores_expand_ne_nil hpos p hp hpe
+
+/-- **STAR refusals** (real profiles, or any profile when `unscored_value` is not `'min'`): only declared refusals — in
+    fact none at all (`star_total`). -/
+theorem star_refusals (ac : Nat) (af : Rat) (cfg : Cfg) (votes : SProfile)
+    (hok : cfg.unscored ≠ .min ∨ PosCounts votes) (n : Nat) (e : Err) (h : Score.star ac af cfg votes n = .error e) :
+    e = .votingSystemError ∨ e = .notImplemented := by
+  obtain ⟨r, hr⟩ := star_total ac af cfg votes hok n
+  rw [hr] at h; cases h
+
+/-- non-vacuity: the score leader loses the run-off; two finalists nobody separates are reported as tied -/
+example : 1 ≤ (scoreCands [([(0, 5), (1, 0), (2, 0)], 2), ([(0, 1), (1, 2), (2, 0)], 3)]).length ∧
+    Score.star 1 0 (C12.plainCfg .sum) [([(0, 5), (1, 0), (2, 0)], 2), ([(0, 1), (1, 2), (2, 0)], 3)] 1
+      = .ok [Slot.cand 1] ∧
+    Score.star 1 0 (C12.plainCfg .sum) [([(0, 5), (1, 5), (2, 0)], 2), ([(0, 4), (1, 4), (2, 1)], 1)] 1
+      = .ok [Slot.tie [0, 1]] := by
+  refine ⟨by decide +kernel, by decide +kernel, by decide +kernel⟩
+
+/-! ### Allocated score: refusals -/
+
+theorem findBestVotes_error {cv : WProfile} {cand : Cand} {e : Err} (h : findBestVotes cv cand = .error e) :
+    e = .valueError := by
+  unfold findBestVotes at h
+  cases hmins : cv.mapM (fun bw => listMin (bw.1.map (·.2))) with
+  | error e' =>
+    rw [hmins] at h
+    injection h with h
+    subst h
+    obtain ⟨x, _, hx⟩ := mapM_error_mem hmins
+    exact (listMin_error hx).2
+  | ok mins =>
+    rw [hmins] at h
+    simp only [bind, Except.bind] at h
+    cases hstart : listMin mins with
+    | error e' =>
+      rw [hstart] at h
+      injection h with h
+      subst h
+      exact (listMin_error hstart).2
+    | ok start => rw [hstart] at h; cases h
+
+theorem fractionOut_error : ∀ (fuel : Nat) (cv : WProfile) (c : Cand) (q : Rat) (e : Err),
+    fractionOut fuel cv c q = .error e → cv.length < fuel → e = .valueError := by
+  intro fuel
+  induction fuel with
+  | zero => intro cv c q e _ hl; omega
+  | succ fuel ih =>
+    intro cv c q e h hl
+    unfold fractionOut at h
+    split at h
+    · cases hb : findBestVotes cv c with
+      | error e' =>
+        rw [hb] at h
+        injection h with h
+        subst h
+        exact findBestVotes_error hb
+      | ok best =>
+        rw [hb] at h
+        simp only [bind, Except.bind, pure, Except.pure] at h
+        split at h
+        · cases h
+        · rename_i hcur
+          split at h
+          · cases h
+          · apply ih _ c _ e h
+            -- the recursion drops at least one ballot
+            rcases findBestVotes_spec hb with ⟨hnil, _⟩ | ⟨m, hbest, hne, _⟩
+            · rw [hnil] at hcur; simp at hcur
+            · obtain ⟨b, hbm⟩ := List.exists_mem_of_ne_nil _ hne
+              have hbm' := hbm
+              rw [hbest] at hbm'
+              unfold gradeGroup at hbm'
+              obtain ⟨bw, hbw, hbe⟩ := List.mem_map.mp hbm'
+              have hbw' := (List.mem_filter.mp hbw).1
+              have : (cv.filter (fun bw => !(best.contains bw.1))).length < cv.length := by
+                apply List.length_filter_lt_length_iff_exists.mpr
+                refine ⟨bw, hbw', ?_⟩
+                simp only [Bool.not_eq_true, Bool.not_eq_false', List.contains_eq_mem, decide_eq_true_eq, hbe]
+                exact hbm
+              omega
+    · cases h
+
+theorem subtractVotes_error {cv : WProfile} {c : Cand} {g : Nat} {q : Rat} {e : Err}
+    (h : subtractVotes cv c g q = .error e) : e = .valueError := by
+  unfold subtractVotes at h
+  cases hf : fractionOut (cv.length + 1) cv c q with
+  | error e' =>
+    rw [hf] at h
+    injection h with h
+    subst h
+    exact fractionOut_error _ _ _ _ _ hf (by omega)
+  | ok cv1 =>
+    rw [hf] at h
+    simp only [bind, Except.bind, pure, Except.pure] at h
+    split at h <;> cases h
+
 end VL.C08
